@@ -11,8 +11,8 @@ var relationType = reflect.TypeOf((*ecs.Relation)(nil)).Elem()
 
 // compiledQuery is a helper for compiling a generic filter into a [ecs.Filter].
 type compiledQuery struct {
-	maskFilter     ecs.MaskFilter
-	relationFilter ecs.RelationFilter
+	maskFilter     *ecs.MaskFilter     // Allocated per compilation: filters and queries handed out earlier keep theirs.
+	relationFilter *ecs.RelationFilter // Allocated per compilation, like maskFilter.
 	cachedFilter   ecs.CachedFilter
 	filter         ecs.Filter
 	Ids            []ecs.ID
@@ -45,7 +45,7 @@ func (q *compiledQuery) Compile(w *ecs.World, include, optional, exclude []Comp,
 	} else {
 		excl = toMask(w, exclude)
 	}
-	q.maskFilter = ecs.MaskFilter{
+	q.maskFilter = &ecs.MaskFilter{
 		Include: incl,
 		Exclude: excl,
 	}
@@ -55,7 +55,7 @@ func (q *compiledQuery) Compile(w *ecs.World, include, optional, exclude []Comp,
 		if noExclude {
 			q.filter = q.maskFilter.Include
 		} else {
-			q.filter = &q.maskFilter
+			q.filter = q.maskFilter
 		}
 		q.Relation = ecs.ID{}
 		q.HasRelation = false
@@ -80,13 +80,14 @@ func (q *compiledQuery) Compile(w *ecs.World, include, optional, exclude []Comp,
 
 		if hasTarget {
 			q.Target = target
-			q.relationFilter = ecs.NewRelationFilter(&q.maskFilter, target)
-			q.filter = &q.relationFilter
+			relationFilter := ecs.NewRelationFilter(q.maskFilter, target)
+			q.relationFilter = &relationFilter
+			q.filter = q.relationFilter
 		} else {
 			if noExclude {
 				q.filter = q.maskFilter.Include
 			} else {
-				q.filter = &q.maskFilter
+				q.filter = q.maskFilter
 			}
 		}
 	}
